@@ -23,16 +23,19 @@ open Finset
 
 /-! ### mean and covariance -/
 
-/-- `np.dot(Xc.T, Xc) / (N - ddof)` with `Xc = X - X.mean(axis=0)`:
+/-- The code line `np.dot(data.values.T, data.values) / (N - ddof)` on whatever data
+`D` it is given (centred or not). -/
+def covOf (N ddof : ℕ) (D : ℕ → ℕ → ℚ) (a b : ℕ) : ℚ :=
+  (∑ i ∈ range N, D i a * D i b) / ((N : ℚ) - ddof)
+
+/-- `covOf` of the centred data `Xc = X - X.mean(axis=0)`:
 `ddof = 1` is `DenseFunctionalData.covariance`, `ddof = 0` the basis-coefficient
 covariance and `np.var`.  (`N = ddof` is a division by zero in the code —
 `nan`/`inf`; the theorems carry `ddof < N`.) -/
-def cov (N ddof : ℕ) (X : ℕ → ℕ → ℚ) (a b : ℕ) : ℚ :=
-  (∑ i ∈ range N, center N X i a * center N X i b) / ((N : ℚ) - ddof)
+def cov (N ddof : ℕ) (X : ℕ → ℕ → ℚ) (a b : ℕ) : ℚ := covOf N ddof (center N X) a b
 
 /-- `covariance(center=False)`: `np.dot(X.T, X) / (N - 1)` on the raw values. -/
-def covRaw (N : ℕ) (X : ℕ → ℕ → ℚ) (a b : ℕ) : ℚ :=
-  (∑ i ∈ range N, X i a * X i b) / ((N : ℚ) - 1)
+def covRaw (N : ℕ) (X : ℕ → ℕ → ℚ) (a b : ℕ) : ℚ := covOf N 1 X a b
 
 /-- "Ensure the covariance is symmetric": `(M + M.T) / 2`, applied to whatever
 the smoother returned. -/
